@@ -82,7 +82,7 @@ theorem trim_eq (m : Msg) : ∃ m1, m.trim = .ok m1 ∧ m1.flat = trimFlat m.fla
 
 theorem spaceEnd_eq (m1 : Msg) : m1.spaceEnd = Flat.tok m1.flat wsTok := by
   unfold Msg.spaceEnd
-  rw [memtok_eq]; rfl
+  rw [nextSpace_eq]; rfl
 
 /-- what `C17.argv_flat` states -/
 def argvAgrees (m : Msg) (sep : Byte) : Prop :=
